@@ -7,12 +7,12 @@ if [ -n "$(git status --porcelain)" ]; then echo "repo dirty, abort"; exit 2; fi
 if git apply --check "$P" 2>/dev/null; then git apply "$P"; 
 elif git apply --3way "$P" >/dev/null 2>&1 && [ -z "$(git diff --name-only --diff-filter=U)" ]; then git reset -q; 
 elif patch -p1 --fuzz=3 -s --no-backup-if-mismatch < "$P" >/dev/null 2>&1; then :; 
-else git checkout -q -- . ; git clean -fdq -e internal/storage/tmp >/dev/null 2>&1; echo "APPLY=failed"; exit 3; fi
+else git reset -q --hard HEAD; echo "APPLY=failed"; exit 3; fi
 echo "APPLY=ok ($(git diff --stat | tail -1))"
 export GOFLAGS=-mod=mod GOPROXY=off GOSUMDB=off GOTOOLCHAIN=local GOWORK=off
 if ! go build ./... 2>/tmp/seed-build.log; then echo "BUILD=failed"; head -5 /tmp/seed-build.log; fi
 OUT=$(mktemp -d)
 /verif/bin/spycheck -verif /verif -repo /repo -prop all -out "$OUT" 2>&1 | grep -E "^(VIOLATION|UNDECIDED|  C[0-9][0-9]\.R|checker panic)" | cut -c1-300
 rm -rf "$OUT"
-git checkout -q -- .
+git reset -q --hard HEAD
 git status --porcelain | grep -v "^??" | head -3
